@@ -1,6 +1,7 @@
 package props
 
 import (
+	"encoding/hex"
 	"fmt"
 	"regexp"
 	"strings"
@@ -11,6 +12,8 @@ import (
 	pb "github.com/google/go-tdx-guest/proto/tdx"
 	"github.com/google/go-tdx-guest/testing/testdata"
 	"github.com/google/go-tdx-guest/verify"
+	"google.golang.org/protobuf/encoding/prototext"
+	"google.golang.org/protobuf/proto"
 	"pgregory.net/rapid"
 	"verifharness/gen"
 )
@@ -55,6 +58,22 @@ func TestC11(t *testing.T) {
 			}
 			pool = gen.PoolOf(certs...)
 		}
+		// the relying party also trusts another edition of the same root CA (same name and key, another serial number),
+		// listed before or after the edition the quote carries
+		switch rapid.SampledFrom([]string{"none", "none", "before", "after", "both-sides"}).Draw(t, "otherRootEdition") {
+		case "before":
+			certs = append([]*gen.Cert{w.PKI.RootEdition(1)}, certs...)
+			pool = gen.PoolOf(certs...)
+			gen.Class("pool:other-edition-of-the-root-first")
+		case "after":
+			certs = append(certs, w.PKI.RootEdition(1))
+			pool = gen.PoolOf(certs...)
+			gen.Class("pool:other-edition-of-the-root-last")
+		case "both-sides":
+			certs = append(append([]*gen.Cert{w.PKI.RootEdition(1)}, certs...), w.PKI.RootEdition(2))
+			pool = gen.PoolOf(certs...)
+			gen.Class("pool:other-edition-of-the-root-first")
+		}
 		msg := w.Q.ToProto()
 		// one options value carried through the levels (as a caller raising the checking level would do)
 		shared := w.Options(gen.LvlBase, w.NewGetter(), pool)
@@ -87,6 +106,51 @@ func TestC11(t *testing.T) {
 						Replay: w.CaseFile(l, nil, nil, certs, "accept")})
 					return
 				}
+			}
+		}
+		// the message in the forms in which it reaches a verifier: as the parser returns it, and after a trip through the
+		// protobuf binary or text encoding (tools/attest -outform proto|textproto -> tools/check -inform ...), where an
+		// empty bytes field comes back absent
+		{
+			form := rapid.SampledFrom([]string{"parsed", "binary-wire", "text-wire"}).Draw(t, "messageForm")
+			var m2 *pb.QuoteV4
+			switch form {
+			case "parsed":
+				pm, err := abi.QuoteToProto(w.Raw)
+				if err != nil {
+					gen.Fail(t, gen.Violation{Key: "rejects-honest:parse", Oracle: "every honest quote parses", Detail: err.Error(), Replay: w.CaseFile(gen.LvlBase, nil, nil, certs, "accept")})
+					return
+				}
+				m2 = pm.(*pb.QuoteV4)
+			case "binary-wire":
+				wb, err := proto.Marshal(msg)
+				m2 = &pb.QuoteV4{}
+				if err != nil || proto.Unmarshal(wb, m2) != nil {
+					gen.HarnessError(t, "message does not survive the binary encoding: %v", err)
+				}
+			default:
+				wb, err := prototext.Marshal(msg)
+				m2 = &pb.QuoteV4{}
+				if err != nil || prototext.Unmarshal(wb, m2) != nil {
+					gen.HarnessError(t, "message does not survive the text encoding: %v", err)
+				}
+			}
+			l := rapid.SampledFrom([]gen.Level{gen.LvlBase, gen.LvlColl, gen.LvlCRL}).Draw(t, "formLevel")
+			o := w.Options(l, w.NewGetter(), pool)
+			gen.Eval()
+			if v := gen.Call(func() error { return verify.TdxQuote(m2, o) }); !v.Accepted() {
+				key := fmt.Sprintf("rejects-honest:message-%s:%s:%s", form, l, errClass(v.Err))
+				if v.Panicked() {
+					key = "panic@" + gen.PanicSite(v.Stack)
+				}
+				mb, _ := proto.Marshal(m2)
+				gen.Fail(t, gen.Violation{Key: key, Oracle: "every honest in-date quote is accepted at every level", Detail: fmt.Sprintf("message form %s (auth data %d bytes), level=%s world=[%s]: %s", form, len(w.Q.Auth), l, d, v),
+					Replay: withFields(w.CaseFile(l, nil, nil, certs, "accept"), map[string]any{"proto_hex": hex.EncodeToString(mb)})})
+				return
+			}
+			gen.Class("message-form:" + form)
+			if len(w.Q.Auth) == 0 && form != "parsed" {
+				gen.Class("message-form:empty-auth-data-through-the-wire")
 			}
 		}
 		if len(d.Labels) >= 3 {
